@@ -462,3 +462,10 @@ Proof.
     + rewrite nth_overflow in Hl by exact G. destruct Hl.
   - apply (serial_branch_ok _ _ _ _ _ Hk). lia.
 Qed.
+
+(* the hypothesis of the concurrent theorems is satisfiable for every configuration and program *)
+Theorem complete_exists_thm cfg prog : exists sched, zcomplete (zrun cfg prog sched).
+Proof.
+  apply (complete_exists sinkst sact sact_run item item_sec (fun t => thread_items cfg (nth t prog [])) (fun _ => sink0) (length prog)).
+  intros t Ht. now rewrite nth_overflow.
+Qed.
